@@ -49,6 +49,9 @@ theorem validLayout_ok {L : Layout} (h : L.Valid) : validLayout L = .ok () := by
   rw [hp.is_power_of_two, decide_eq_true h.2, decide_eq_true (show L.align > 0 from hpos)]
   rfl
 
+theorem bytes_layout_valid {n : Nat} (h : n ≤ Rs.IMAX) : ({ size := n, align := 1 } : Layout).Valid :=
+  ⟨⟨0, by decide, rfl⟩, h⟩
+
 /-! ## Monad plumbing -/
 
 theorem liftM_ok {α} (v : α) : liftM (.ok v : Rs.M α) = .ok v := rfl
